@@ -1,5 +1,7 @@
 """Replay of FieldWrites.tla behaviours (C16) on the /verif family model: list field knows / set field known_by of `a`."""
+import dataclasses
 import gc
+import itertools
 
 from harness.core import worker_main
 
@@ -48,6 +50,18 @@ def apply(inst, op, ak="list"):
         a.known_by.add(e(op["x"]))
     elif k == "update":
         a.known_by.update(arg([e(n) for n in op["v"]], ak))
+    elif k == "assign_view_list":
+        # a lazily evaluated iterable that reads the very field it is assigned to
+        v = op["view"]
+        a.knows = (reversed(a.knows) if v == "reversed" else (x for x in a.knows) if v == "gen"
+                   else itertools.chain(a.knows, [e(op["x"])]))
+    elif k == "assign_view_set":
+        v = op["view"]
+        a.known_by = ((x for x in list(a.known_by)) if v == "reversed" else (x for x in a.known_by) if v == "gen"
+                      else itertools.chain(a.known_by, [e(op["x"])]))
+    elif k == "replace":
+        # the constructor of the new object receives a's managed containers as the first values of its own fields
+        inst["a2"] = dataclasses.replace(a, name="a2")
     else:
         raise ValueError(k)
 
